@@ -115,8 +115,9 @@ class DualProductCone(SetMembership):
             elif co.type != '0':
                 raise RuntimeError('Unexpected cone type "%s".' % str(co.type))
             start_row = stop_row
-        y_mod = np.hstack(y_mod)
-        y_mod = Expression(y_mod)
+        if len(y_mod) > 0:
+            y_mod = np.hstack(y_mod)
+            y_mod = Expression(y_mod)
         # Now we can pretend all nonzero cones are self-dual.
         A_vals, A_rows, A_cols = [], [], []
         cur_K = [Cone(co.type, co.len) for co in self.K if co.type != '0']
